@@ -81,7 +81,7 @@ rdir = os.path.join(V, "seeded", "refactors")
 if os.path.exists(os.path.join(rdir, "RESULTS.json")) and "<!-- REFTABLE:BEGIN -->" in d:
     res = json.load(open(os.path.join(rdir, "RESULTS.json")))
     fcs = {}
-    for name in ("FIRST_CONTACT.json", "FIRST_CONTACT_2.json"):
+    for name in ("FIRST_CONTACT.json", "FIRST_CONTACT_2.json", "FIRST_CONTACT_3.json"):
         if os.path.exists(os.path.join(rdir, name)):
             fcs.update(json.load(open(os.path.join(rdir, name))))
     rrows = ["| refactor | kind (sub-agent's words) | first contact | final tree |", "|---|---|---|---|"]
